@@ -72,6 +72,22 @@ def _worker(ys):
                     got = -got if got is not None else None
                 if got != exp:
                     bad.setdefault("diff", []).append((d.isoformat(), 0, "%s .. %s: %s" % (d.isoformat(), d2.isoformat(), got), str(exp)))
+            # two additions in a row on the same value (what the first leaves in the carry slot must not count again)
+            for (u1, c1) in (("DT_DURH", 2), ("DT_DURH", -2), ("DT_DURS", 3700), ("DT_DURS", -3700), ("DT_DURM", 1), ("DT_DURS", 86400)):
+                for (u2, c2) in (("DT_DURH", 24), ("DT_DURH", -48), ("DT_DURS", 0), ("DT_DURS", 86400), ("DT_DURS", -86400), ("DT_DURM", 1440),
+                                 ("DT_DURS", 1), ("DT_DURH", 1)):
+                    n += 1
+                    try:
+                        r1 = mk(fadd).run([dict(src), {"durtyp": E[u1], "dv": c1, "neg": 0}])
+                        r2 = mk(fadd).run([dict(r1), {"durtyp": E[u2], "dv": c2, "neg": 0}])
+                        got = tuple(r2.get(k) for k in ("d.ymd.y", "d.ymd.m", "d.ymd.d", "t.hms.h", "t.hms.m", "t.hms.s"))
+                    except fold.Abort as ex:
+                        got = "abort: %s" % ex
+                    e = d + datetime.timedelta(seconds=c1 * MULT[u1] + c2 * MULT[u2])
+                    if got != (e.year, e.month, e.day, e.hour, e.minute, e.second):
+                        lst = bad.setdefault("twice", [])
+                        if len(lst) < 300:
+                            lst.append((d.isoformat(), 0, "%+d x %d s then %+d x %d s gives %s" % (c1, MULT[u1], c2, MULT[u2], got), e.isoformat()))
             for unit in ("DT_DURS", "DT_DURM", "DT_DURH"):
                 W = WIN[unit] if unit != "DT_DURS" or (every and (d.month, d.day, d.hour) in ((2, 28, 23), (12, 31, 23))) else 4000
                 work = [(-W, W)]
@@ -140,6 +156,13 @@ def run_parallel(R, P, rule, every=False, jobs=12):
                   "by %s" % (len(lst), lst[0][2], lst[0][3]))
     else:
         R.ob(rule, "difference in seconds: the difference of the epoch values for every pair of grid points within two years", True)
+    if "twice" in bad:
+        lst = sorted(bad["twice"])
+        R.finding(rule, tu.func("dt_dtadd"), "two additions in a row, decoded", "%s%d (start, first, second) points differ from the timeline; first: "
+                  "%s %s, the timeline says %s" % (">= " if len(lst) >= 300 else "", len(lst), lst[0][0], lst[0][2], lst[0][3]))
+    else:
+        R.ob(rule, "two additions in a row on one value (the first across midnight or not, the second whole days, nothing, or a second): the "
+             "sum later on the timeline", True)
     for key in ("epoch", "DT_DURS", "DT_DURM", "DT_DURH"):
         fn = tu.func("dt_dtconv" if key == "epoch" else "dt_dtadd")
         if key in bad:
